@@ -302,6 +302,38 @@ func GridCases(thorough bool) []WriteCase {
 			add(0, model.StrV(strings.Repeat("y", L)).WithAnn(model.T("a")))
 		}
 	}
+	// many distinct symbols: symbol ids cross the one/two/three-byte boundaries (127/128, 16383/16384)
+	// in every position an id is written (value, field name, annotation)
+	for _, ns := range []int{130, 16400} {
+		st := model.StructV()
+		l := model.ListV()
+		for i := 0; i < ns; i++ {
+			t := fmt.Sprintf("sym_%d", i)
+			st.Kids = append(st.Kids, model.Int64V(int64(i)).WithField(model.T(t)))
+			if i%3 == 0 || (i > 100 && i < 125) || i > ns-30 {
+				l.Kids = append(l.Kids, model.SymV(model.T(t)).WithAnn(model.T(t)))
+			}
+		}
+		for m := 0; m < NModes; m++ {
+			if m == ModePrettyQuiet || (ns > 1000 && m != ModeBinary) {
+				continue
+			}
+			out = append(out, WriteCase{CaseSeed: 1, Mode: m, Vals: []*model.Value{st, l, model.SymV(model.T(fmt.Sprintf("sym_%d", ns-1)))}})
+		}
+	}
+	// runs of lobs (their arguments are cut out of one buffer as adjacent sub-slices for some seeds)
+	for seed := int64(1); seed <= 8; seed++ {
+		for _, n := range []int{1, 63, 64, 65, 100, 300} {
+			mk := func(b byte) []byte { return bytes.Repeat([]byte{b}, n) }
+			for m := 0; m < NModes; m++ {
+				if m == ModePrettyQuiet {
+					continue
+				}
+				out = append(out, WriteCase{CaseSeed: seed, Mode: m, Vals: []*model.Value{model.BlobV(mk('a')), model.BlobV(mk('b')), model.ClobV(mk('c')), model.Int64V(1),
+					model.ListV(model.BlobV(mk('d')), model.ClobV(mk('e')), model.BlobV(mk('f'))), model.StructV(model.BlobV(mk('g')).WithField(model.T("x")), model.BlobV(mk('h')).WithField(model.T("y")))}})
+			}
+		}
+	}
 	// nested payloads: the encoded size of an inner container or wrapper crosses each boundary of the
 	// binary length encoding (14, 2^7, 2^14, 2^21) while an outer container has to account for it
 	for _, B := range []int{14, 128, 16384, 2097152} {
@@ -409,7 +441,7 @@ func runWriteMonitor(c *Ctx, sub string, judge func(WriteCase, []byte) string) {
 		// in several batches
 		r := rand.New(rand.NewSource(cs ^ 0x5bd1e995))
 		for rep := 0; rep < 3; rep++ {
-			k := WriteCase{CaseSeed: cs, Mode: []int{ModeText, ModePretty, ModeBinary}[(i+rep)%3], Vals: vals}
+			k := WriteCase{CaseSeed: cs, Mode: []int{ModeText, ModePretty, ModeBinary, ModePrettyQuiet}[(i+rep)%4], Vals: vals}
 			if rep != 1 {
 				k.Shared = sharedFor(r, vals)
 			}
